@@ -95,6 +95,14 @@ func scenC10(e *Env) func() {
 		}
 		p.Conns = append(p.Conns, c)
 	}
+	if e.Chance(12) {
+		// a response decided during a shutdown that gives up before the response is out: the
+		// handler is still running when ShutdownWithContext starts, the (large) response is
+		// written to a reader that starts late, and the context expires in between
+		p.CloseOnShutdown, p.ShutdownAfterMs, p.ShutdownCtxMs = true, Pick(e, 50, 150), Pick(e, 30, 300)
+		p.DisableKA, p.MaxReqs = false, 0
+		p.Conns[0].Reqs[0] = c10Req{Proto: "HTTP/1.1", Handler: "slowbig", SlowMs: 1000}
+	}
 	e.Sample = p
 	return func() { c10Server(e, p) }
 }
@@ -131,6 +139,10 @@ func c10Server(e *Env, p *c10Plan) {
 		case "readbody":
 			ctx.PostBody()
 		case "bigbody":
+			ctx.SetBody(bytes.Repeat([]byte("big "), 20000))
+			return
+		case "slowbig":
+			time.Sleep(200 * time.Millisecond)
 			ctx.SetBody(bytes.Repeat([]byte("big "), 20000))
 			return
 		}
